@@ -382,6 +382,19 @@ func panicString(i *interpreter, v value) string {
 		if s, ok := e.v.(string); ok {
 			return s
 		}
+		// error values: ask the target's own Error method
+		if f, ok := i.method(nil, e, "Error"); ok && e.t != nil && !strings.Contains(e.t.String(), "vapi.Err") {
+			msg := ""
+			func() {
+				defer func() { recover() }()
+				if r, ok := call(i, nil, 0, f, []value{e.v}).(string); ok {
+					msg = r
+				}
+			}()
+			if msg != "" {
+				return e.t.String() + ": " + msg
+			}
+		}
 		// error values: try the Msg field of *vapi.Err or errors.errorString
 		if p, ok := e.v.(*value); ok && p != nil {
 			if st, ok := (*p).(structure); ok && len(st) > 0 {
